@@ -176,7 +176,7 @@ class Interp:
         x = self.get(op.inputs[0])
         w = self.const(op.inputs[1])
         if w is None:
-            raise Unsupported("dynamic weights")
+            w = self.get(op.inputs[1])  # weights computed at run time (the operator then stays on the CPU)
         oc, kh, kw, ic = w.shape
         if x.shape[3] != ic:
             raise Unsupported("grouped convolution")
@@ -245,7 +245,7 @@ class Interp:
         x = self.get(op.inputs[2])
         w = self.const(op.inputs[1])
         if w is None:
-            raise Unsupported("dynamic weights")
+            w = self.get(op.inputs[1])  # weights computed at run time (the operator then stays on the CPU)
         oc, kh, kw, ic = w.shape
         n, h, wd, _ = x.shape
         oh, ow = self.sg.tensors[op.outputs[0]].shape[1:3]
@@ -279,7 +279,7 @@ class Interp:
         x = self.get(op.inputs[0])
         w = self.const(op.inputs[1])
         if w is None:
-            raise Unsupported("dynamic weights")
+            w = self.get(op.inputs[1])  # weights computed at run time (the operator then stays on the CPU)
         oc, ic = w.shape
         x2 = x.reshape(-1, ic)
         bias, bdt = self._bias(op, oc)
